@@ -479,21 +479,57 @@ def execute(case):
 # --------------------------------------------------------------------------
 # planning
 # --------------------------------------------------------------------------
+def _variants(rng, t):
+    """Texts *related* to t: the same tokens in another order, the same weekday / part of day
+    in another surface form or at another offset, a prefix in front. Calls that share tokens
+    but not offsets are what trips over state shared between overlapping calls (a value object
+    reused across calls, a scratch table indexed by match count, ...)."""
+    from qsim.models import forms
+    toks = t.split()
+    out = []
+    if len(toks) > 1:
+        out.append(" ".join(toks[::-1]))
+        out.append(" ".join(toks[1:] + toks[:1]))
+    out.append(rng.choice(["am", "on", "at", "call bob", "um", "lunch"]) + " " + t)
+    out.append(t + " " + rng.choice(["8pm", "3pm", "morning", "late evening", "9-11"]))
+    low = [x.lower().strip(".,") for x in toks]
+    for w in range(7):
+        names = forms.DOW_LONG[w]
+        for i, x in enumerate(low):
+            if x in names:
+                alt = rng.choice([n for n in names if n != x] or names)
+                out.append(" ".join(toks[:i] + [alt] + toks[i + 1:]))
+                out.append(rng.choice(["am", "this", "next"]) + " " + alt + " "
+                           + rng.choice(["um 8", "8-10", "3pm", "morning"]))
+    return [v for v in out if v and len(v) <= 44]
+
+
 def _entry_pool(rng, n):
     texts = [t for t in workload.FIXED_TEXTS if t.strip() and len(t.split()) <= 6
              and t not in ("31.04.2020 9-5", "early early early early morning")]
     out = []
+    pending = []
+    fam = 0
     while len(out) < n:
-        r = rng.random()
-        if r < 0.45:
-            t = rng.choice(texts)
-        elif r < 0.85:
-            t = workload.structured_text(rng)
+        if pending:
+            t = pending.pop()
         else:
-            t = workload.gen_text(rng, 4)
-        if len(t) > 40:
-            continue
-        e = {"text": t, "ts": fmt_ts(workload.ref_time(rng, 2016, 2043))}
+            fam += 1
+            r = rng.random()
+            if r < 0.35:
+                t = rng.choice(texts)
+            elif r < 0.55:
+                t = "%s %s" % (rng.choice(workload.DOWS), rng.choice(workload.CLOCKS + workload.PODS))
+            elif r < 0.9:
+                t = workload.structured_text(rng)
+            else:
+                t = workload.gen_text(rng, 4)
+            if len(t) > 40:
+                continue
+            vs = _variants(rng, t)
+            rng.shuffle(vs)
+            pending = vs[: rng.choice([1, 2, 3])]
+        e = {"text": t, "ts": fmt_ts(workload.ref_time(rng, 2016, 2043)), "fam": fam}
         if rng.random() < 0.35:
             e["latent_time"] = False
         if rng.random() < 0.3:
@@ -567,14 +603,34 @@ def plan(prop, tier, seed):
     base = core.derive_seed(seed, prop, tier)
     rng = core.stream(base, "workload")
     quick = tier == "quick"
-    n_pool = 28 if quick else 160
+    n_pool = 44 if quick else 240
     big_pool = _entry_pool(rng, n_pool)
     hashseeds = [1 + rng.randrange(4000), 1 + rng.randrange(4000), 1 + rng.randrange(4000)]
     cases = []
     # -- task mode
+    fams = {}
+    for e in big_pool:
+        fams.setdefault(e.pop("fam"), []).append(e)
+    fam_list = [v for v in fams.values() if len(v) >= 2]
+
+    def draw_pool(r, lo, hi):
+        k = r.randint(lo, hi)
+        if fam_list and r.random() < 0.6:
+            f = r.choice(fam_list)
+            pool = list(f[:k])
+            # the same text under another reference time / option set is "related" too
+            if len(pool) < k and r.random() < 0.5:
+                e = dict(r.choice(pool))
+                e["ts"] = fmt_ts(workload.ref_time(r, 2016, 2043))
+                pool.append(e)
+            while len(pool) < min(k, 2):
+                pool.append(r.choice(big_pool))
+            return pool
+        return r.sample(big_pool, k)
+
     for i in range(260 if quick else 6000):
         r = core.stream(core.derive_seed(base, "task", i), "sched")
-        pool = r.sample(big_pool, r.randint(2, 5))
+        pool = draw_pool(r, 2, 5)
         n_clients = r.randint(2, 6)
         scripts = [_client_script(r, c, len(pool), 100 * c) for c in range(n_clients)]
         ops = _interleave(r, scripts)
@@ -600,16 +656,16 @@ def plan(prop, tier, seed):
         (e1, a), (e2, b) = short_entries[2 * i], short_entries[2 * i + 1]
         cases.append({"kind": "pairs", "pool": [e1, e2], "lens": [a, b], "hashseeds": hashseeds})
     # -- thread mode
-    for i in range(24 if quick else 600):
+    for i in range(70 if quick else 1500):
         r = core.stream(core.derive_seed(base, "threads", i), "sched")
-        pool = r.sample(big_pool, r.randint(2, 4))
+        pool = draw_pool(r, 2, 4)
         n_threads = r.choice([2, 3, 4, 8])
         scripts = [[{"op": r.choice(["CALL", "GEN", "CALL", "GEN", "FAIL"]),
                      "e": r.randrange(len(pool)), "k": r.choice([1, 2, 5, 9, 17])}
                     for _ in range(r.randint(1, 2))] for _ in range(n_threads)]
         cases.append({"kind": "threads", "pool": pool, "scripts": scripts, "hashseeds": hashseeds,
                       "sched": {"seed": r.randrange(1 << 40),
-                                "p": r.choice([0.0005, 0.002, 0.01, 0.05, 0.3]),
+                                "p": r.choice([0.0003, 0.001, 0.005, 0.02, 0.1]),
                                 "opcode": r.random() < 0.1}})
     return cases
 
